@@ -918,8 +918,8 @@ class MainTransformer(object):
 
         closure_annotation = annotations.get(ANN_CLOSURE)
         if closure_annotation and len(closure_annotation) == 1:
-            param.closure_name = self._get_validate_parameter_name(parent, closure_annotation[0], param)
-            closure_param = parent.get_parameter(param.closure_name)
+            closure_name = self._get_validate_parameter_name(parent, closure_annotation[0], param)
+            closure_param = parent.get_parameter(closure_name)
             closure_target = self._transformer.lookup_typenode(closure_param.type)
             closure_target = self._transformer.resolve_aliases(closure_target)
             if not isinstance(closure_target, ast.Type):
@@ -927,6 +927,8 @@ class MainTransformer(object):
 
             if closure_target != ast.TYPE_ANY:
                 message.warn('invalid "closure" annotation: only valid on gpointer parameters', annotations.position)
+            else:
+                param.closure_name = closure_name
 
     def _apply_annotations_param_closure(self, parent, param, tag):
         annotations = tag.annotations if tag else {}
@@ -942,8 +944,6 @@ class MainTransformer(object):
         # is used to mark the parameter that contains the user data; it is
         # weirdly represented in the GIR and typelib by setting the
         # param.closure_name field to itself
-        param.closure_name = param.argname
-
         target = self._transformer.lookup_typenode(param.type)
         target = self._transformer.resolve_aliases(target)
         if not isinstance(target, ast.Type):
@@ -951,6 +951,8 @@ class MainTransformer(object):
 
         if target != ast.TYPE_ANY:
             message.warn('invalid "closure" annotation: only valid on gpointer parameters', annotations.position)
+        else:
+            param.closure_name = param.argname
 
     def _apply_annotations_param(self, parent, param, tag, block):
         if isinstance(parent, (ast.Function, ast.VFunction)):
